@@ -24,6 +24,16 @@ Judge(sch, s, e) ==
                          \o (IF e.after.bitcnt # x.st.bitcnt THEN <<C("bitcnt-after", x.st.bitcnt)>> ELSE <<>>)
                          \o (IF e.after.padflag # x.st.padflag THEN <<C("padflag-after", x.st.padflag)>> ELSE <<>>)
                          \o (IF DefinesPadcnt(sch) /\ e.padding /\ e.after.padcnt # x.st.padcnt THEN <<C("padcnt", x.st.padcnt)>> ELSE <<>>)]
+    [] e.op = "iterlong" ->      \* message = K copies of one block, then a short tail; output in the compressed form of PadBytes!IterLong
+         LET x == IterLong(sch, s, e.pat, e.K, e.tail, e.bitlen, e.padding) IN
+         IF x.raises THEN [st |-> s, bad |-> IF e.raised = "" THEN <<C("must-refuse", "any exception")>> ELSE <<>>]
+         ELSE [st |-> x.st,
+               bad |-> IF e.raised # "" THEN <<C("must-not-raise", [blocks |-> x.blocks])>>
+                       ELSE (IF e.bhead # x.blocks.head \/ e.brest # x.blocks.rest THEN <<C("blocks", x.blocks)>> ELSE <<>>)
+                         \o (IF e.chead # x.cnts.head \/ e.crest # x.cnts.rest THEN <<C("bitcnt-per-block", x.cnts)>> ELSE <<>>)
+                         \o (IF e.after.bitcnt # x.st.bitcnt THEN <<C("bitcnt-after", x.st.bitcnt)>> ELSE <<>>)
+                         \o (IF e.after.padflag # x.st.padflag THEN <<C("padflag-after", x.st.padflag)>> ELSE <<>>)
+                         \o (IF DefinesPadcnt(sch) /\ e.padding /\ e.after.padcnt # x.st.padcnt THEN <<C("padcnt", x.st.padcnt)>> ELSE <<>>)]
     [] e.op = "remove" ->
          LET u == Unpad(sch, e.c, s.padcnt) IN
          [st |-> s,
